@@ -310,6 +310,13 @@ class Q:
             rn, rd = math.isqrt(c.numerator), math.isqrt(c.denominator)
             if rn * rn == c.numerator and rd * rd == c.denominator:
                 return lift(Fraction(rn, rd))
+            # constant radicals that the field already contains (e.g. r3 with r3^2 = 3): sqrt(c) = m * r  when c = m^2 * rep
+            for i, rep in f.rel.items():
+                if rep.is_ground and rep != 0 and f.sign.get(f.names[i]) in ('>', '>='):
+                    k = c / _frac(rep.LC)
+                    an, ad = math.isqrt(k.numerator), math.isqrt(k.denominator)
+                    if k > 0 and an * an == k.numerator and ad * ad == k.denominator:
+                        return lift(Fraction(an, ad)) * Q(f.gens[i], f.R.one, norm=False)
         on, inn = _root(s.n)
         od, ind = _root(s.d)
         inside = f.red(inn * ind)          # sqrt(inn/ind) = sqrt(inn*ind)/ind
